@@ -1699,6 +1699,14 @@ fn drop_stream_ref(inner: &Mutex<Inner>, key: store::Key) {
             while let Some(promise) = ppp.pop(stream.store_mut()) {
                 counts.transition(promise, |counts, stream| {
                     maybe_cancel(stream, actions, counts);
+
+                    // Nobody can read what the promised stream has buffered
+                    // either: give it back to the connection as well.
+                    if stream.ref_count == 0 {
+                        actions
+                            .recv
+                            .release_closed_capacity(stream, &mut actions.task, counts);
+                    }
                 });
             }
         }
